@@ -154,8 +154,12 @@ pub fn mul_tf_case(form: F) {
     #[cfg(not(kani))]
     { vassert!(mul_bound_ok(&r, &x, y.hi, y.lo, 5), "TwoFloat * TwoFloat within 5 * 2^-106 of the exact product"); }
 }
-pub fn div_f64_case(form: F) {
+pub fn div_f64_case(form: F) { div_f64_case_b(form, false) }
+/// `bounded`: witness-search variant of the same miter on the domain B(12) (kissat can then produce a model)
+pub fn div_f64_case_b(form: F, bounded: bool) {
     let x = any_tf(); let y = any_f64!();
+    #[cfg(kani)]
+    { if bounded { vassume!(valid(x.hi, x.lo) && bhi(x.hi) && blo_m(x.lo) && bhi(y)); } }
     #[cfg(not(kani))]
     { vassume!(valid(x.hi, x.lo) && in450(x.hi) && x.hi != 0.0 && in450(y) && y != 0.0); }
     let r = match form { F::Op => &x / &y, F::Assign => { let mut t = x; t /= &y; t } };
@@ -185,6 +189,8 @@ harnesses! {
     #[kani::solver(kissat)] #[kani::unwind(70)] fn bound_mul_assign_f64() { bound_mul_f64_case(false, F::Assign) }
     #[kani::solver(kissat)] #[kani::unwind(70)] fn bound_mul_tf_tf() { bound_mul_tf_case(F::Op) }
     #[kani::solver(kissat)] #[kani::unwind(70)] fn bound_mul_assign_tf() { bound_mul_tf_case(F::Assign) }
+    #[kani::solver(kissat)] fn witness_div_tf_f64() { div_f64_case_b(F::Op, true) }
+    #[kani::solver(kissat)] fn witness_div_assign_f64() { div_f64_case_b(F::Assign, true) }
     #[kani::solver(cvc5)] fn alg15_div_tf_f64() { div_f64_case(F::Op) }
     #[kani::solver(cvc5)] fn alg15_div_assign_f64() { div_f64_case(F::Assign) }
     /// new_div(a, b) is Algorithm 15 with a zero low word
